@@ -105,9 +105,40 @@ def doRun (a : Json) : Except String Json := do
         | some p => J.obj [("id", encodeId p.1), ("count", J.nat p.2)]
         | none => Json.null)]).toArray)]
 
+/-- `C14.window {setup:[C03 harness ops…], subset:[name…], d:Nat, impl:[pop outputs…]}` — a fresh stable window judged against
+    the **final configuration**: the ready set is what the model reaches on `setup` (the Syncs in the order they were issued,
+    the health table), not what the pickers happened to see.  `subset = []`: every ready endpoint, bounded deviation with the
+    `d` distinct orders observed; else the ready endpoints of the subset in its order, strict floor/ceil. -/
+def doWindow (a : Json) : Except String Json := do
+  let s ← runSetup (← J.getArr a "setup")
+  let subset ← J.getHexList a "subset"
+  let d ← J.getNat a "d"
+  let impl ← (← J.getArr a "impl").toList.mapM decodePop
+  let ready := if subset.isEmpty then (sortEps s.eps).filter EP.isReady else readyList s.eps subset
+  let members := ready.map EP.id
+  let k := members.length
+  let N := impl.length
+  let counts := members.map fun e => (e, countPicked e.1 e.2 impl)
+  let applicable := decide members.Nodup && decide (2 ≤ k)
+  let bad := if !applicable then none else
+    counts.find? fun p => if subset.isEmpty then !(boundedOK k (max d 1) N p.2) else !(strictOK k N p.2)
+  let strays := impl.any fun x => match x with
+    | .picked n g => !members.contains (n, g)
+    | _ => decide (1 ≤ k)
+  pure <| J.obj [
+    ("members", Json.arr (members.map encodeId).toArray), ("k", J.nat k), ("n", J.nat N), ("applicable", J.bool applicable),
+    ("strays", J.bool strays),
+    ("names", J.hexList ((sortEps s.eps).map (·.name))),
+    ("eps", Json.arr ((sortEps s.eps).map encodeEP).toArray),
+    ("counts", Json.arr (counts.map fun p => J.obj [("id", encodeId p.1), ("count", J.nat p.2)]).toArray),
+    ("bad", match bad with
+      | some p => J.obj [("id", encodeId p.1), ("count", J.nat p.2)]
+      | none => Json.null)]
+
 def handle (m : String) (a : Json) : Option (Except String Json) :=
   match m with
   | "run" => some (doRun a)
+  | "window" => some (doWindow a)
   | _ => none
 
 end KG.Driver.C14
